@@ -92,6 +92,9 @@ func (e *esdtNFTAddQuantity) ProcessBuiltinFunction(
 	if err != nil {
 		return nil, err
 	}
+	if esdtData.TokenMetaData == nil {
+		return nil, ErrNFTDoesNotHaveMetadata
+	}
 
 	esdtData.Value.Add(esdtData.Value, big.NewInt(0).SetBytes(vmInput.Arguments[2]))
 
